@@ -16,7 +16,7 @@
    at the theorems that use them). *)
 From Coq Require Import List Arith NArith ZArith Bool String.
 From NngV Require Import Gen.Consts Core.PipeEvModel Core.PipeEvProofs Core.DialerModel Core.DialerProofs
-  Core.ListenerModel Core.ListenerProofs Core.PipeEvConsts.
+  Core.ListenerModel Core.ListenerProofs Core.PipeEvConsts Core.SfdqModel Core.SfdqProofs.
 Import ListNotations.
 
 (* ------------------------------------------------------------------------------------ *)
@@ -310,6 +310,51 @@ Example redial_until_closed_nonvacuous :
   d_conn_done d2 = Some (6%N, 0) /\ dialer_connect_class 6%N = DcRetry /\ d_user d2 = false /\ g_att d2 = 2.
 Proof. vm_compute. repeat split; reflexivity. Qed.
 
+(* 6b. WHICH DIAL FAILURES END THE REDIALING.  dialer_connect_cb's switch, as parsed from dialer.c on this run, is
+   the model's classification: exactly NNG_ECLOSED, NNG_ECANCELED and NNG_ESTOPPED end it (they mean "the
+   application closed / stopped this dialer"), success starts the pipe, EVERY other code arms the timer.
+   And no transport gives one of the three codes (nor, to a listener, one of its four stop codes) to the core's
+   connect / accept aio outside the context of the endpoint's own close: [C14_TRAN_FAIL_SITES] lists every literal
+   completion code of the endpoint functions of src/sp/transport with its context (regenerated from the source:
+   inproc listener close / no listener -> ECONNREFUSED, negotiation failure -> EPROTO / ECONNSHUT, busy -> EBUSY,
+   allocation -> ENOMEM, udp handshake timeout -> ETIMEDOUT; own close -> ECLOSED / ECONNABORTED).  A transport that
+   starts to report NNG_ECLOSED for a peer-side event (e.g. the peer's listener going away while a connect is
+   queued on it) breaks this proof.  Codes that are not literals (results of the stream layer handed through) are
+   outside this table: assumption [src_ok] of 7. *)
+Theorem dial_failure_classification :
+  (forall rv, dialer_connect_class rv = DcNothing <-> rv = D_ECLOSED \/ rv = D_ECANCELED \/ rv = D_ESTOPPED) /\
+  (forall rv, dialer_connect_class rv = DcStart <-> rv = D_OK) /\
+  (forall rv, dclass_num (dialer_connect_class rv) = tab_lookup C14_DIALER_CASES C14_DIALER_DEFAULT rv) /\
+  C14_DIALER_RETRY_SHAPE = true.
+Proof.
+  split; [|split; [|split; [exact dialer_table_matches|reflexivity]]];
+    intros rv; unfold dialer_connect_class, D_OK, D_ECLOSED, D_ECANCELED, D_ESTOPPED;
+    destruct (N.eqb_spec rv 0), (N.eqb_spec rv 7), (N.eqb_spec rv 20), (N.eqb_spec rv 999); simpl;
+    split; intros H; try discriminate; try congruence; auto;
+    try (destruct H as [H|[H|H]]; congruence).
+Qed.
+Print Assumptions dial_failure_classification.
+
+Theorem transport_failure_codes_redial :
+  (forall f fn code, In (f, fn, code, false) C14_TRAN_FAIL_SITES ->
+     dialer_connect_class code = DcRetry /\ listener_accept_decision code <> LaStop) /\
+  List.length C14_TRAN_FAIL_SITES = C14_TRAN_FAIL_SITE_COUNT /\ (40 <= C14_TRAN_FAIL_SITE_COUNT)%nat.
+Proof.
+  split; [|exact tran_fail_sites_counted].
+  intros f fn code H. pose proof tran_fail_sites_ok as A. rewrite forallb_forall in A. specialize (A _ H).
+  unfold tran_site_ok in A. simpl in A. apply andb_true_iff in A. destruct A as [A B].
+  split.
+  - destruct (dialer_connect_class code); simpl in A; try discriminate; reflexivity.
+  - intros X. apply decision_stop_iff in X. rewrite X in B. discriminate.
+Qed.
+Print Assumptions transport_failure_codes_redial.
+
+Example transport_failure_codes_nonvacuous :
+  In ("inproc.c"%string, "inproc_ep_close"%string, 6%N, false) C14_TRAN_FAIL_SITES /\
+  In ("inproc.c"%string, "inproc_ep_close"%string, 7%N, true) C14_TRAN_FAIL_SITES /\
+  In ("tcp.c"%string, "tcptran_pipe_nego_cb"%string, 31%N, false) C14_TRAN_FAIL_SITES.
+Proof. vm_compute. auto 80. Qed.
+
 (* ------------------------------------------------------------------------------------ *)
 (* 7. THE LISTENER KEEPS ACCEPTING.  listener_accept_cb, for EVERY result code rv (all of N,
    a fortiori every value of the generated nng_err enum):
@@ -377,6 +422,115 @@ Theorem listener_econnaborted_stops :
   ltokens l = 0%nat /\ l_closed l = false /\ g_llost l = true.
 Proof. exact econnaborted_stops. Qed.
 Print Assumptions listener_econnaborted_stops.
+
+(* ------------------------------------------------------------------------------------ *)
+(* 8. THE SOCKET-FD LISTENER'S HAND-OVER QUEUE (src/core/sockfd.c).  "A listener keeps accepting
+   further connections": every descriptor the listener takes over (NNG_OPT_SOCKET_FD returns 0) is
+   handed to exactly one accept, in FIFO order, or closed by the listener (at close, or when the
+   stream cannot be allocated) -- none lost, none handed out or closed twice.
+   Object: Core/SfdqModel.v, one step per entry point (all run under l->mtx), the array listen_q
+   with checked accesses, flags [fixed] (the shift in sfd_start_conn) and [fixclose] (close empties
+   the queue).  Spec: a plain list queue ([sp_step]).
+   (a) refinement: with both repairs every step of the listener is the step of the list queue, with
+       equal outputs, and no access leaves the array;
+   (b) conservation over ALL histories: the descriptors taken over, in order, are exactly those that
+       left (delivered or closed), in order, followed by those still queued; after close nothing is
+       queued; consequently nothing leaves twice;
+   (c) the statement for the tree as it is, behind the flags regenerated from the source. *)
+Theorem sfdq_refines_fifo : forall cap s o s' outs,
+  SfInv cap s -> sf_step true true cap s o = (s', outs) ->
+  SfInv cap s' /\ sp_step cap (sf_abs s) o = (sf_abs s', outs).
+Proof. exact sf_step_refines. Qed.
+Print Assumptions sfdq_refines_fifo.
+
+Theorem sfdq_none_lost_none_duplicated : forall cap ops s tr,
+  sf_run true true cap (sfdl_init cap) ops = (s, tr) ->
+  (flat_map took tr = flat_map left_of tr ++ firstn (sf_cnt s) (sf_q s) /\
+   sf_poison s = false /\ ~ In SfOob (flat_map snd tr) /\ (sf_closed s = true -> sf_cnt s = 0)) /\
+  (NoDup (flat_map took tr) -> NoDup (flat_map left_of tr)).
+Proof. intros. split; [eapply sfdq_conservation; eauto|eapply sfdq_no_duplicates; eauto]. Qed.
+Print Assumptions sfdq_none_lost_none_duplicated.
+
+Theorem sfdq_holds_when_repaired :
+  C14_SFDQ_SHIFT_FIXED = true -> C14_SFDQ_CLOSE_RESETS = true ->
+  forall ops s tr,
+  sf_run C14_SFDQ_SHIFT_FIXED C14_SFDQ_CLOSE_RESETS C14_SFD_LISTEN_QUEUE (sfdl_init C14_SFD_LISTEN_QUEUE) ops = (s, tr) ->
+  flat_map took tr = flat_map left_of tr ++ firstn (sf_cnt s) (sf_q s) /\
+  ~ In SfOob (flat_map snd tr) /\ (sf_closed s = true -> sf_cnt s = 0) /\
+  (NoDup (flat_map took tr) -> NoDup (flat_map left_of tr)).
+Proof.
+  intros H1 H2 ops s tr R. rewrite H1, H2 in R.
+  destruct (sfdq_conservation _ _ _ _ R) as (A & _ & B & C). repeat split; auto.
+  eapply sfdq_no_duplicates; eauto.
+Qed.
+Print Assumptions sfdq_holds_when_repaired.
+
+(* the tree as it is: both repairs are present and sfd_listener_set_fd has the shape the model was written from
+   (closed -> ECLOSED, full -> ENOSPC, append, serve the oldest waiting accept); any of the three flags reading
+   false makes this proof fail, and an unrecognised shift / close function is reported by the drop-in itself *)
+Theorem sfdq_shapes_current :
+  C14_SFDQ_SHIFT_FIXED = true /\ C14_SFDQ_CLOSE_RESETS = true /\ C14_SFDQ_SETFD_SHAPE_OK = true.
+Proof. repeat split; reflexivity. Qed.
+Print Assumptions sfdq_shapes_current.
+
+Theorem sfdq_holds_current : forall ops s tr,
+  sf_run C14_SFDQ_SHIFT_FIXED C14_SFDQ_CLOSE_RESETS C14_SFD_LISTEN_QUEUE (sfdl_init C14_SFD_LISTEN_QUEUE) ops = (s, tr) ->
+  flat_map took tr = flat_map left_of tr ++ firstn (sf_cnt s) (sf_q s) /\
+  ~ In SfOob (flat_map snd tr) /\ (sf_closed s = true -> sf_cnt s = 0) /\
+  (NoDup (flat_map took tr) -> NoDup (flat_map left_of tr)).
+Proof. destruct sfdq_shapes_current as (A & B & _). exact (sfdq_holds_when_repaired A B). Qed.
+Print Assumptions sfdq_holds_current.
+
+Example sfdq_nonvacuous :
+  (* accepts before and after the descriptors, a full queue (ENOSPC for the 17th), a failed stream allocation,
+     a cancelled accept, close with descriptors queued, a second close (= stop) *)
+  let ops := [SfAccept 0 true; SfAccept 1 true; SfSetFd 1 true; SfCancel 1 20%N] ++
+             map (fun k => SfSetFd (N.of_nat (10 + k)) true) (seq 0 17) ++
+             [SfAccept 2 true; SfAccept 3 false; SfSetFd 40 true; SfClose; SfClose; SfSetFd 41 true; SfAccept 4 true] in
+  let tr := snd (sf_run true true 16 (sfdl_init 16) ops) in
+  flat_map took tr = ([1] ++ map (fun k => N.of_nat (10 + k)) (seq 0 16) ++ [40])%N /\
+  flat_map left_of tr = flat_map took tr /\
+  flat_map delivered1 (flat_map snd tr) = [1; 10]%N /\
+  NoDup (flat_map took tr).
+Proof.
+  vm_compute. repeat split.
+  repeat (constructor; [simpl; intros X; repeat (destruct X as [X|X]; [discriminate X|]); exact X|]). constructor.
+Qed.
+
+(* The pinned forms do not satisfy it.  [sfdq_shift_refuted]: three descriptors queued, three accepts:
+   the first descriptor is handed out three times, the other two are never delivered and not even closed
+   at close (replayed on the library: findings/c14/sfd-listen-queue-shift.txt); with a full queue the shift
+   reads listen_q[NNG_SFD_LISTEN_QUEUE].  [sfdq_close_twice_refuted]: close followed by stop closes the
+   queued descriptors twice (on the library the second close hits whatever the application opened in
+   between).  Both statements are behind the flags: vacuous once the source is repaired. *)
+Theorem sfdq_shift_refuted :
+  C14_SFDQ_SHIFT_FIXED = false ->
+  (let tr := snd (sf_run C14_SFDQ_SHIFT_FIXED C14_SFDQ_CLOSE_RESETS C14_SFD_LISTEN_QUEUE (sfdl_init C14_SFD_LISTEN_QUEUE) shift_witness) in
+   flat_map took tr = [11; 12; 13]%N /\ flat_map left_of tr = [11; 11; 11]%N) /\
+  In SfOob (flat_map snd (snd (sf_run C14_SFDQ_SHIFT_FIXED C14_SFDQ_CLOSE_RESETS C14_SFD_LISTEN_QUEUE
+                                  (sfdl_init C14_SFD_LISTEN_QUEUE) (full_queue_ops C14_SFD_LISTEN_QUEUE)))).
+Proof.
+  destruct C14_SFDQ_SHIFT_FIXED; intros H; [discriminate H|].
+  destruct C14_SFDQ_CLOSE_RESETS; vm_compute; auto 30.
+Qed.
+Print Assumptions sfdq_shift_refuted.
+
+Theorem sfdq_close_twice_refuted :
+  C14_SFDQ_CLOSE_RESETS = false ->
+  flat_map left_of (snd (sf_run C14_SFDQ_SHIFT_FIXED C14_SFDQ_CLOSE_RESETS C14_SFD_LISTEN_QUEUE
+                           (sfdl_init C14_SFD_LISTEN_QUEUE) close_twice_witness)) = [21; 22; 21; 22]%N.
+Proof.
+  destruct C14_SFDQ_CLOSE_RESETS; intros H; [discriminate H|].
+  destruct C14_SFDQ_SHIFT_FIXED; vm_compute; reflexivity.
+Qed.
+Print Assumptions sfdq_close_twice_refuted.
+
+Theorem sfdq_repaired_witnesses :
+  flat_map left_of (snd (sf_run true true C14_SFD_LISTEN_QUEUE (sfdl_init C14_SFD_LISTEN_QUEUE) shift_witness)) = [11; 12; 13]%N /\
+  flat_map left_of (snd (sf_run true true C14_SFD_LISTEN_QUEUE (sfdl_init C14_SFD_LISTEN_QUEUE) close_twice_witness)) = [21; 22]%N /\
+  SF_ENOSPC = C14_ENOSPC /\ SF_ENOMEM = C14_ENOMEM /\ SF_ECLOSED = C14_ECLOSED.
+Proof. vm_compute. repeat split; reflexivity. Qed.
+Print Assumptions sfdq_repaired_witnesses.
 
 (* ------------------------------------------------------------------------------------ *)
 (* the literals, tables and code shapes the models use are those of the current source *)
